@@ -30,9 +30,19 @@ def analyse(seed):
   T = rng.randint(1, 30)
   sig, power = rng.choice([(0.9, 0.8), (0.95, 0.9), (0.8, 0.5), (0.6, 0.7), (0.3, 0.3), (0.4, 0.5), (0.2, 0.6)])
   flevel = rng.choice([0.9, 0.95, 0.99])
-  par = P.TBRMMDesignParameters(n_test=T, iroas=1.0, sig_level=sig, power_level=power, flevel=flevel)
-  x, y = series(rng, n)
   r2 = random.Random(seed * 31 + 7)
+  # the diagnostics object is given the series as they are: n_pretest_max (default 90) must play no role in it
+  npm = None
+  if r2.random() < 0.3:
+    if r2.random() < 0.5:
+      n = r2.randint(95, 130)                    # longer than the default n_pretest_max
+    else:
+      npm = r2.choice([3, 6, 10, 20])            # a small n_pretest_max with a longer series
+  kw = {} if npm is None else {'n_pretest_max': npm}
+  par = P.TBRMMDesignParameters(n_test=T, iroas=1.0, sig_level=sig, power_level=power, flevel=flevel, **kw)
+  x, y = series(rng, n)
+  if n > 20:                                     # the noise level changes along the series
+    y = [v + (3.0 if t % 2 else -3.0) * (t < n // 2) for t, v in enumerate(y)]
   reuse = r2.random() < 0.5
   if reuse:
     # the object has a history: another pair of series (of another length) was analysed on it first
@@ -105,7 +115,7 @@ def analyse(seed):
       tbrfam.pts(list(zip(x, y))), tbrfam.qm(T), tbrfam.qm(phi), tbrfam.qm(tqs), tbrfam.qm(tqp), tbrfam.qm(impact),
       tbrfam.qm(float(d.estimate_required_impact(0.9))), tbrfam.qm(xt), tbrfam.qm(yt), tbrfam.qm(float(fit.estimate)),
       tbrfam.qm(float(fit.scale)))
-  out['params'] = {'reused_object': reuse, 'n': n, 'n_test': T, 'sig_level': sig, 'power_level': power, 'flevel': flevel}
+  out['params'] = {'reused_object': reuse, 'n_pretest_max': npm or 90, 'n': n, 'n_test': T, 'sig_level': sig, 'power_level': power, 'flevel': flevel}
   return out
 
 
@@ -141,7 +151,7 @@ def run(tier):
     ck.tie_broken('correspondence', 'TBRMMDiagnostics vs model/TBRMath.v on %d of %d cases' % (len(bad), len(terms)), {'seed': owners[bad[0]]})
   ck.sample(res[0].get('params', {}))
   ck.sample(res[1].get('params', {}))
-  ck.cov['rule'] = ('random pretest series (n = 5-60, three noise levels), on a fresh TBRMMDiagnostics object or (half of the cases) on one that analysed series of another length before, n_test 1-30, (sig_level, power_level) from a grid that includes '
+  ck.cov['rule'] = ('random pretest series (n = 5-60, in 15% of the cases 95-130 i.e. longer than the default n_pretest_max, in 15% with n_pretest_max in {3,6,10,20}; three noise levels, noisier first half), on a fresh TBRMMDiagnostics object or (half of the cases) on one that analysed series of another length before, n_test 1-30, (sig_level, power_level) from a grid that includes '
                     'settings with sig_level + power_level < 1, flevel in {.9, .95, .99}; for each: required impact vs the TBR posterior '
                     'scale of an experiment frame whose control test mean is displaced by the planning F-quantile; treatment = '
                     'counterfactual + required impact, then estimate and one-sided lower bound; monotonicity over |corr|, unit scaling, '
